@@ -111,6 +111,8 @@ RULES = [
  ("C13", r"(gibbs:bounds|pgs:facies-at-data):nburn=0", "AGibbs::_getBoundsDecay stops relaxing the bounds at iter == nburn"),
  ("C19", r".*MEDIAN.*", "dbStatisticsOnGrid(MEDIAN)"),
  ("C19", r"pair-final-differs:.*", "KrigingSystem gives the caller's neighborhood back"),
+ ("C11", r"aliasing:matvec-inplace.*", "in-place matrix-vector products work on a copy"),
+ ("C11", r"aliasing:prodMatMatInPlace.*", "prodMatMatInPlace evaluates the product in a temporary"),
  ("C20", r".*", ""),
 ]
 log = subprocess.check_output(["git", "-C", "/repo", "log", "--format=%h %s"], text=True).splitlines()
